@@ -72,6 +72,21 @@ def checkTwistAgainstTable (e : C11.Env) : List String :=
         (if e.h == t.h then [] else ["twist cofactor differs from the table"]) ++
         (if (e.kv.lookup "qnr").bind String.toInt? == some t.qnr then [] else ["quadratic non-residue differs from the one derived for the table"])
 
+/-- the Edwards set the library reports (`ed_param`) against the table extracted from src/ed/relic_ed_param.c -/
+def checkEdAgainstTable (id p a d gx gy r h : Nat) : List String :=
+  match Params.edCurves.find? (·.id == id) with
+  | none => ["Edwards curve id " ++ toString id ++ " is selectable in the library but absent from the extracted table"]
+  | some c =>
+    match lookupField allFields c.field with
+    | none => ["field " ++ c.field ++ " absent from the extracted table"]
+    | some f =>
+      (if f.prime == p then [] else ["p differs from the table"]) ++
+      (if c.a == a then [] else ["a differs from the table"]) ++
+      (if c.d == d then [] else ["d differs from the table"]) ++
+      (if c.gx == gx && c.gy == gy then [] else ["generator differs from the table"]) ++
+      (if c.r == r then [] else ["order differs from the table"]) ++
+      (if c.h == h then [] else ["cofactor differs from the table"])
+
 /-- endomorphism constant reported by the library: β is a primitive cube root of unity mod p and ψ(G) = (βx, y) is on the curve -/
 def checkEndom (e : C03.Env) : List String :=
   if !e.endom then [] else
